@@ -34,6 +34,7 @@ UDIG = ["٣", "３", "३", "\U0001d7d1", "๓"]
 FORMATISH = ["%", "{", "}", "$", "#", "*", "?", "[", "(", "&", "|", "<", ">", "=", "`", "@", "!", "^", ",", ":", "/", "d", "s"]
 OTHER = FORMATISH + ["a", "\xe9", "\U0001f600", "\x00", ".", "x", "Z", "~", "漢", "e", "−", "'", "\"", "\\", "́",
          "﻿", "{"]
+WORDS = ["None", "null", "True", "False", "nan", "NaN", "inf", "Infinity", "undefined", "NULL"]
 IVALS = [-1, 0, 1, 255, 256, 1000, 2147483647, -2147483647, 17, 254]
 
 
@@ -42,8 +43,13 @@ class Conc:
 
     def __init__(self, rng):
         a = rng.choice(OTHER)
-        if rng.random() < 0.3:
+        r = rng.random()
+        if r < 0.3:
             a, c = "%", rng.choice(["d", "s", "(", "r", "x", "{"])
+        elif r < 0.45:
+            # the class "other text" as a whole word that means something to Python / JSON (still just text on the wire)
+            a = rng.choice(WORDS)
+            c = rng.choice([x for x in FORMATISH if not x.isalpha()])
         else:
             c = rng.choice([x for x in OTHER if x != a])
         self.m = {"b": rng.choice(BLANKS), "u": rng.choice(UDIG), "a": a, "c": c, "g": rng.choice(GBLANKS),
@@ -56,6 +62,10 @@ class Conc:
         return "".join(self.m[s] for s in syms)
 
     def syms(self, text):
+        w = self.m["a"]
+        if len(w) > 1:
+            text = text.replace(w, "\ue000")          # the word stands for ONE symbol of class a
+            return ["a" if ch == "\ue000" else self.inv.get(ch, "?") for ch in text]
         return [self.inv.get(ch, "?") for ch in text]
 
 
@@ -121,7 +131,11 @@ def build_records(tier, rng):
         conc = Conc(rng)
         text = conc.text(line)
         try:
-            m = Message(text, some_gw())
+            if rng.random() < 0.5:
+                m = Message(text, some_gw())
+            else:
+                m = Message(None, some_gw())       # the public decode() called on an existing message object
+                m.decode(text)
             h = [m.node_id, m.child_id, m.type, m.ack, m.sub_type]
             if any(abs(x) > 2 ** 31 - 1 for x in h):
                 continue
